@@ -7,8 +7,6 @@ import Relic.Proofs.XmlSort
 namespace Relic.Vsix
 open Relic Relic.Xml Relic.XmlSig
 
-def keys (m : SMap) : List Bytes := m.map (·.1)
-
 theorem keys_mset (m : SMap) (k v : Bytes) (h : (keys m).Nodup) : (keys (mset m k v)).Nodup := by
   simp only [keys, mset, List.map_append, List.map_cons, List.map_nil]
   rw [List.nodup_append]
@@ -85,11 +83,11 @@ theorem sortMap_sorted : ∀ m : SMap, (keys m).Nodup → KSorted (sortMap m) :=
     exact hn.1 (List.mem_map.mpr ⟨x, this, hxe⟩)
 
 /-- **the Manifest lists every covered part once, in strictly ascending byte order of the names** -/
-theorem refs_sorted {E : Env} {c : Cfg} {pkg : Pkg} {s : Vsix.Signed} (hs : Vsix.sign E c pkg = .ok s) :
+theorem refs_sorted {fx : Bool} {E : Env} {c : Cfg} {pkg : Pkg} {s : Vsix.Signed} (hs : Vsix.sign fx E c pkg = .ok s) :
     (s.refs.map (·.name)).Pairwise (fun a b => bytesLt a b = true) := by
   obtain ⟨m, hm, hrefs, -, -, -, -⟩ := sign_inv hs
-  obtain ⟨-, hdig⟩ := mangle_spec E pkg {} m hm
-  have hpairs := mkRefs_spec _ _ _ hrefs
+  obtain ⟨-, hdig⟩ := mangle_spec fx E pkg {} m hm
+  have hpairs := mkRefs_spec _ _ _ _ hrefs
   have hnd : (keys (addDigests m.digests (fixedNews E c))).Nodup := by
     rw [addDigests, hdig, ← List.foldl_append]
     exact keys_foldl _ _ (by simp [keys])
